@@ -203,3 +203,9 @@ def c19(work, tier, seed, replay):
 def c18(work, tier, seed, replay):
     import fam_api as fa
     return fa.c18(work, tier, seed)
+
+
+@check("C20")
+def c20(work, tier, seed, replay):
+    import fam_api as fa
+    return fa.c20(work, tier, seed)
